@@ -201,6 +201,11 @@ struct Value {
                 fun[i] = v[i];
             }
             if (v[i] == '(') {
+                NestingGuard nesting; // f(g(h(...))) recurses like brackets do
+                if (nesting.depth() > 200) {
+                    fprintf(stderr, "parse error, function calls nested too deeply (more than 200 levels)\n");
+                    exit(1);
+                }
                 fun[i] = 0;
                 size_t funlen = ++i;
                 size_t vallen = vlen - i - 1;
